@@ -182,7 +182,7 @@ func (f capFmt) order() binary.AppendByteOrder {
 	return binary.LittleEndian
 }
 
-func writePcap(f capFmt, link uint32, frames [][]byte, origLens []int) []byte {
+func writePcap(f capFmt, link uint32, frames [][]byte, origLens []int, secs, fracs []uint32) []byte {
 	bo := f.order()
 	magic := uint32(0xa1b2c3d4)
 	if f.ns {
@@ -197,8 +197,8 @@ func writePcap(f capFmt, link uint32, frames [][]byte, origLens []int) []byte {
 	out = bo.AppendUint32(out, 262144)
 	out = bo.AppendUint32(out, link)
 	for i, fr := range frames {
-		out = bo.AppendUint32(out, uint32(1600000000+i/1000))
-		out = bo.AppendUint32(out, uint32(i%1000)*100)
+		out = bo.AppendUint32(out, secs[i])
+		out = bo.AppendUint32(out, fracs[i])
 		out = bo.AppendUint32(out, uint32(len(fr)))
 		out = bo.AppendUint32(out, uint32(origLens[i]))
 		out = append(out, fr...)
@@ -236,7 +236,8 @@ func ngOption(bo binary.AppendByteOrder, code uint16, val []byte) []byte {
 // one EPB per frame (ifaces[i] = interface of frame i; every second EPB carries a comment option).
 // exactLen: section_length = number of bytes following the SHB (the specification's meaning) instead of -1.
 // It also returns the length of the SHB and of the last block of the section (0: SHB only).
-func ngSection(f capFmt, links []uint32, frames [][]byte, ifaces []int, origLens []int) (out []byte, shbLen int, lastLen int) {
+// ts = the packets' 64 bit timestamps in units of the interfaces' resolution; tsresol < 0: no if_tsresol option.
+func ngSection(f capFmt, links []uint32, frames [][]byte, ifaces []int, origLens []int, ts []uint64, tsresol int) (out []byte, shbLen int, lastLen int) {
 	exactLen := f.len
 	bo := f.order()
 	var body []byte
@@ -246,6 +247,9 @@ func ngSection(f capFmt, links []uint32, frames [][]byte, ifaces []int, origLens
 		idb = bo.AppendUint16(idb, 0)
 		idb = bo.AppendUint32(idb, 262144)
 		idb = append(idb, ngOption(bo, 2, []byte("if0"))...)
+		if tsresol >= 0 {
+			idb = append(idb, ngOption(bo, 9, []byte{byte(tsresol)})...)
+		}
 		idb = append(idb, ngOption(bo, 0, nil)...)
 		blk := ngBlock(bo, 1, idb)
 		lastLen = len(blk)
@@ -254,8 +258,8 @@ func ngSection(f capFmt, links []uint32, frames [][]byte, ifaces []int, origLens
 	for i, fr := range frames {
 		var epb []byte
 		epb = bo.AppendUint32(epb, uint32(ifaces[i]))
-		epb = bo.AppendUint32(epb, 0x0005a000)
-		epb = bo.AppendUint32(epb, uint32(i)*100)
+		epb = bo.AppendUint32(epb, uint32(ts[i]>>32))
+		epb = bo.AppendUint32(epb, uint32(ts[i]))
 		epb = bo.AppendUint32(epb, uint32(len(fr)))
 		epb = bo.AppendUint32(epb, uint32(origLens[i]))
 		epb = pad4(append(epb, fr...))
